@@ -19,11 +19,11 @@ import (
 )
 
 const (
-	cmdType  = dbPkg + ".Command"
-	dbType   = dbPkg + ".Database"
-	cliPkg   = load.ModulePath + "/internal/cli"
-	cfgMeth  = "(*" + load.ModulePath + "/internal/config.Config)."
-	yamlPkg  = "gopkg.in/yaml.v3"
+	cmdType = dbPkg + ".Command"
+	dbType  = dbPkg + ".Database"
+	cliPkg  = load.ModulePath + "/internal/cli"
+	cfgMeth = "(*" + load.ModulePath + "/internal/config.Config)."
+	yamlPkg = "gopkg.in/yaml.v3"
 )
 
 func init() {
@@ -32,7 +32,7 @@ func init() {
 		Explanation: "Structural conditions for faithful saving, decided from the SSA/type information: (O-1) the save and save-pipeline commands start — their flag sets merge without a pflag panic and every flag they read is registered with the type read; (O-2) each positional argument and flag value reaches its own field of the database.Command handed to saveToPersonalDatabase unchanged (value identity), Pipeline is the flag (save) or true (save-pipeline); " +
 			"(O-3) the read-modify-write in saveToPersonalDatabase derives the written slice from the unmarshalled one only by `commands[i] = entry` under `commands[i].Command == entry.Command` (same i) or `append(commands, entry)`, and a failed read or parse cannot reach the write; (O-4) writer and readers use the same Go type []database.Command, the six persisted fields have distinct non-'-' yaml keys that cover the keys used by the shipped database, the cache fields are yaml:\"-\"; (O-5) LoadDatabaseWithPersonal stores append(append(empty, main...), personal...) in a fresh Database and builds both indexes, and the CLI passes (main path, personal path) in that order and saves to the personal path. " +
 			"The YAML encoder/decoder round trip for arbitrary strings is library behaviour over runtime values and is NOT decided.",
-		NotDecided: []string{"yaml.v3 Marshal/Unmarshal round trip of arbitrary strings (control characters, invalid UTF-8, YAML-significant text)", "file-system effects"},
+		NotDecided:  []string{"yaml.v3 Marshal/Unmarshal round trip of arbitrary strings (control characters, invalid UTF-8, YAML-significant text)", "file-system effects"},
 		Assumptions: []string{"yaml.v3 decodes what it encoded for the []database.Command type", "cobra/pflag merge semantics as in C17"},
 		Run:         runC08,
 	})
@@ -251,13 +251,60 @@ func c08RMW(c *Ctx) {
 			cell = al
 		}
 	})
+	// or the notebook is read by a helper that returns the decoded list
+	// (commands, err := readPersonalDatabase(dbPath))
+	var notebook ssa.Value
+	var readCall *ssa.Call
 	if cell == nil {
+		ssau.ForEachInstr(fn, false, func(in ssa.Instruction) {
+			call, ok := in.(*ssa.Call)
+			if !ok || notebook != nil {
+				return
+			}
+			h := call.Common().StaticCallee()
+			if h == nil || h.Blocks == nil || !c.P.IsRepoFunc(h) || len(call.Common().Args) == 0 || call.Common().Args[0] != ssa.Value(fn.Params[0]) {
+				return
+			}
+			var hcell *ssa.Alloc
+			ssau.ForEachInstr(h, false, func(i2 ssa.Instruction) {
+				if uc, ok := i2.(*ssa.Call); ok && ssau.CallName(uc) == yamlPkg+".Unmarshal" {
+					if al, ok := ssau.Strip(uc.Common().Args[1]).(*ssa.Alloc); ok {
+						hcell = al
+						unm = uc
+					}
+				}
+			})
+			if hcell == nil {
+				return
+			}
+			// every return with a nil error hands back the decoded variable (or nil: no notebook yet)
+			for _, ret := range ssau.ReturnsOf(h) {
+				if len(ret.Results) != 2 || !ssau.IsNilConst(ret.Results[1]) {
+					continue
+				}
+				v := ret.Results[0]
+				if u, ok := v.(*ssa.UnOp); ok && u.X == ssa.Value(hcell) {
+					continue
+				}
+				if ssau.IsNilConst(v) {
+					continue
+				}
+				return
+			}
+			readCall = call
+			notebook = resultValue(call, 0)
+		})
+	}
+	if cell == nil && notebook == nil {
 		r.Unknown("O-3", fk+"#commands", c.P.Pos(fn.Pos()), "the variable that yaml.Unmarshal fills was not found")
 		return
 	}
 	isCellLoad := func(v ssa.Value) bool {
+		if notebook != nil && v == notebook {
+			return true
+		}
 		u, ok := v.(*ssa.UnOp)
-		return ok && u.Op == token.MUL && u.X == ssa.Value(cell)
+		return ok && cell != nil && u.Op == token.MUL && u.X == ssa.Value(cell)
 	}
 	entry := fn.Params[1]
 	isEntry := func(v ssa.Value) bool {
@@ -292,7 +339,11 @@ func c08RMW(c *Ctx) {
 	}
 	// 1. stores to the cell
 	nStores := 0
-	for _, ref := range *cell.Referrers() {
+	var cellRefs []ssa.Instruction
+	if cell != nil {
+		cellRefs = *cell.Referrers()
+	}
+	for _, ref := range cellRefs {
 		st, ok := ref.(*ssa.Store)
 		if !ok || st.Addr != ssa.Value(cell) {
 			continue
@@ -320,64 +371,131 @@ func c08RMW(c *Ctx) {
 		}
 		r.Check(good, "O-3", fmt.Sprintf("%s#commands-assign-%d", fk, nStores), c.P.Pos(st.Pos()), "commands = append(commands, entry)", "the notebook slice is replaced by something other than append(commands, entry): earlier entries can be lost or reordered")
 	}
-	// 2. element stores
+	// 2. element stores (in this function, or in the helper that computes the
+	// updated list: see below)
 	nElem := 0
-	cd := ssau.ControlDeps(fn)
+	var elemChecks func(body *ssa.Function, isCellLoad func(ssa.Value) bool, isEntry func(ssa.Value) bool, entryCommand func(ssa.Value) bool)
+	elemChecks = func(fn *ssa.Function, isCellLoad func(ssa.Value) bool, isEntry func(ssa.Value) bool, entryCommand func(ssa.Value) bool) {
+		cd := ssau.ControlDeps(fn)
+		ssau.ForEachInstr(fn, false, func(in ssa.Instruction) {
+			ia, ok := in.(*ssa.IndexAddr)
+			if !ok || !isCellLoad(ia.X) {
+				return
+			}
+			for _, ref := range *ia.Referrers() {
+				st, ok := ref.(*ssa.Store)
+				if !ok || st.Addr != ssa.Value(ia) {
+					continue
+				}
+				nElem++
+				key := fmt.Sprintf("%s#element-store-%d", fk, nElem)
+				if !isEntry(st.Val) {
+					r.Bad("O-3", key, c.P.Pos(st.Pos()), "an element of the notebook is overwritten with something other than the new entry")
+					continue
+				}
+				guarded := false
+				for _, d := range ssau.TransitiveControlDeps(cd, st.Block()) {
+					op, x, y, ok := ssau.CondOf(d.If().Cond)
+					if !ok || !((op == token.EQL && d.Then) || (op == token.NEQ && !d.Then)) {
+						continue
+					}
+					var other ssa.Value
+					if entryCommand(x) {
+						other = y
+					} else if entryCommand(y) {
+						other = x
+					}
+					if other == nil {
+						continue
+					}
+					// other must be commands[idx].Command for the same idx
+					base, ok := ssau.IsFieldLoad(other, cmdType, "Command")
+					if !ok {
+						continue
+					}
+					if sameElement(base, ia, isCellLoad) {
+						guarded = true
+					}
+				}
+				r.Check(guarded, "O-3", key, c.P.Pos(st.Pos()), "commands[i] = entry under commands[i].Command == entry.Command", "an existing notebook entry is overwritten without the test that its command string equals the new entry's (or with a different index)")
+			}
+		})
+		// 3. other mutations of the slice: sort, copy, reslice stored back
+		ssau.ForEachInstr(fn, false, func(in ssa.Instruction) {
+			call, ok := in.(*ssa.Call)
+			if !ok {
+				return
+			}
+			n := ssau.CallName(call)
+			if (strings.HasPrefix(n, "sort.") || strings.HasPrefix(n, "slices.") || n == "builtin.copy" || n == "builtin.clear") && len(call.Common().Args) > 0 && isCellLoad(ssau.Strip(call.Common().Args[0])) {
+				r.Bad("O-3", fk+"#reorder", c.P.Pos(call.Pos()), "the notebook slice is reordered or overwritten by "+n+": earlier entries do not keep their position")
+			}
+		})
+	}
+	elemChecks(fn, isCellLoad, isEntry, entryCommand)
+	// the updated list may be computed by a helper handed the notebook and the
+	// entry (writePersonalDatabase(path, upsertCommand(commands, entry))): the
+	// same rules apply to the helper, and each of its results must be the list
+	// it was given or that list with the entry appended
+	var upsert *ssa.Call
 	ssau.ForEachInstr(fn, false, func(in ssa.Instruction) {
-		ia, ok := in.(*ssa.IndexAddr)
-		if !ok || !isCellLoad(ia.X) {
+		call, ok := in.(*ssa.Call)
+		if !ok || upsert != nil {
 			return
 		}
-		for _, ref := range *ia.Referrers() {
-			st, ok := ref.(*ssa.Store)
-			if !ok || st.Addr != ssa.Value(ia) {
-				continue
+		u := call.Common().StaticCallee()
+		a := call.Common().Args
+		if u == nil || u.Blocks == nil || !c.P.IsRepoFunc(u) || len(a) != 2 || len(u.Params) != 2 || !isCellLoad(a[0]) || !isEntry(a[1]) {
+			return
+		}
+		upsert = call
+		uNB := func(v ssa.Value) bool { return v == ssa.Value(u.Params[0]) }
+		uEnt := func(v ssa.Value) bool {
+			if v == ssa.Value(u.Params[1]) {
+				return true
 			}
-			nElem++
-			key := fmt.Sprintf("%s#element-store-%d", fk, nElem)
-			if !isEntry(st.Val) {
-				r.Bad("O-3", key, c.P.Pos(st.Pos()), "an element of the notebook is overwritten with something other than the new entry")
-				continue
-			}
-			guarded := false
-			for _, d := range ssau.TransitiveControlDeps(cd, st.Block()) {
-				op, x, y, ok := ssau.CondOf(d.If().Cond)
-				if !ok || !((op == token.EQL && d.Then) || (op == token.NEQ && !d.Then)) {
-					continue
-				}
-				var other ssa.Value
-				if entryCommand(x) {
-					other = y
-				} else if entryCommand(y) {
-					other = x
-				}
-				if other == nil {
-					continue
-				}
-				// other must be commands[idx].Command for the same idx
-				base, ok := ssau.IsFieldLoad(other, cmdType, "Command")
-				if !ok {
-					continue
-				}
-				if sameElement(base, ia, isCellLoad) {
-					guarded = true
+			if ld, ok := v.(*ssa.UnOp); ok && ld.Op == token.MUL {
+				if al, ok := ld.X.(*ssa.Alloc); ok {
+					for _, ref := range *al.Referrers() {
+						if st, ok := ref.(*ssa.Store); ok && st.Addr == ssa.Value(al) && st.Val == ssa.Value(u.Params[1]) {
+							return true
+						}
+					}
 				}
 			}
-			r.Check(guarded, "O-3", key, c.P.Pos(st.Pos()), "commands[i] = entry under commands[i].Command == entry.Command", "an existing notebook entry is overwritten without the test that its command string equals the new entry's (or with a different index)")
+			return false
+		}
+		uCmd := func(v ssa.Value) bool {
+			base, ok := ssau.IsFieldLoad(v, cmdType, "Command")
+			if !ok {
+				return false
+			}
+			if base == ssa.Value(u.Params[1]) {
+				return true
+			}
+			if al, ok := base.(*ssa.Alloc); ok {
+				for _, ref := range *al.Referrers() {
+					if st, ok := ref.(*ssa.Store); ok && st.Addr == ssa.Value(al) && st.Val == ssa.Value(u.Params[1]) {
+						return true
+					}
+				}
+			}
+			return false
+		}
+		elemChecks(u, uNB, uEnt, uCmd)
+		for i, ret := range ssau.ReturnsOf(u) {
+			v := ret.Results[0]
+			good := uNB(v)
+			if ap, ok := v.(*ssa.Call); ok && ssau.CallName(ap) == "builtin.append" && uNB(ap.Common().Args[0]) {
+				if el := appendedSingle(ap); el != nil && uEnt(el) {
+					good = true
+					nStores++
+				}
+			}
+			r.Check(good, "O-3", fmt.Sprintf("%s#updated-list-%d", fk, i+1), c.P.Pos(ret.Pos()), "the helper returns the list it was given, or that list with the entry appended", "the list handed to the writer is not the notebook with the entry replaced in place or appended: earlier entries can be lost or reordered")
 		}
 	})
 	r.Floor("O-3", "notebook update sites (append + replace)", nStores+nElem, 2)
-	// 3. other mutations of the slice: sort, copy, reslice stored back
-	ssau.ForEachInstr(fn, false, func(in ssa.Instruction) {
-		call, ok := in.(*ssa.Call)
-		if !ok {
-			return
-		}
-		n := ssau.CallName(call)
-		if (strings.HasPrefix(n, "sort.") || strings.HasPrefix(n, "slices.") || n == "builtin.copy" || n == "builtin.clear") && len(call.Common().Args) > 0 && isCellLoad(ssau.Strip(call.Common().Args[0])) {
-			r.Bad("O-3", fk+"#reorder", c.P.Pos(call.Pos()), "the notebook slice is reordered or overwritten by "+n+": earlier entries do not keep their position")
-		}
-	})
 	// 4. every write call gets the cell's current value
 	var writes []*ssa.Call
 	ssau.ForEachInstr(fn, false, func(in ssa.Instruction) {
@@ -388,11 +506,33 @@ func c08RMW(c *Ctx) {
 		n := ssau.CallName(call)
 		if n == cliPkg+".writePersonalDatabase" {
 			writes = append(writes, call)
-			r.Check(isCellLoad(call.Common().Args[1]) && call.Common().Args[0] == ssa.Value(fn.Params[0]), "O-3", fmt.Sprintf("%s#write-%d", fk, len(writes)), c.P.Pos(call.Pos()), "writes the updated slice to dbPath", "the slice written is not the updated notebook slice, or it is written to a different path")
+			wOK := isCellLoad(call.Common().Args[1]) || (upsert != nil && call.Common().Args[1] == ssa.Value(upsert))
+			r.Check(wOK && call.Common().Args[0] == ssa.Value(fn.Params[0]), "O-3", fmt.Sprintf("%s#write-%d", fk, len(writes)), c.P.Pos(call.Pos()), "writes the updated slice to dbPath", "the slice written is not the updated notebook slice, or it is written to a different path")
 		}
 	})
 	r.Floor("O-3", "write calls", len(writes), 1)
 	// 5. failed read / parse never reaches a write
+	if readCall != nil {
+		// the read helper's failure returns before any write, and inside the helper
+		// a failed read or decode is what makes it fail
+		okEdge, why := errorBlocksTargets(readCall, writes)
+		r.Check(okEdge, "O-3", fk+"#error-guard:read-helper", c.P.Pos(readCall.Pos()), "a failure of the read helper returns before any write", why)
+		h := readCall.Common().StaticCallee()
+		for _, src := range []string{"os.ReadFile", yamlPkg + ".Unmarshal"} {
+			short := src[strings.LastIndex(src, "/")+1:]
+			n := 0
+			for _, call := range callsTo(h, src) {
+				n++
+				ok, why := failurePropagates(call)
+				r.Check(ok, "O-3", fk+"#error-guard:"+short, c.P.Pos(call.Pos()), "a failure is returned by the read helper", why)
+			}
+			if n == 0 {
+				r.Unknown("O-3", fk+"#error-guard:"+short, c.P.Pos(h.Pos()), "call not found")
+			}
+		}
+		_ = unm
+		return
+	}
 	for _, src := range []string{"os.ReadFile", yamlPkg + ".Unmarshal"} {
 		var calls []*ssa.Call
 		ssau.ForEachInstr(fn, false, func(in ssa.Instruction) {
